@@ -495,7 +495,7 @@ class Tracer:
                 if q.status is not None:
                     nxt.append(q)
                     continue
-                if self.follow_exceptions and _has_call(st) and (s.handlers or s.finalbody):
+                if self.follow_exceptions and (_has_call(st) or _may_raise_lookup(st, s.handlers)) and (s.handlers or s.finalbody):
                     # the exception is raised by a call of this statement: its calls are recorded (the statement's own
                     # bindings do not happen), then control moves to the handlers
                     before = q.fork()
@@ -1163,9 +1163,15 @@ class Tracer:
             return [(p, pv)]
         if isinstance(f, ast.Name) and fv is None and f.id not in p.env:
             fields = fi.module.namedtuple_fields(f.id)
-            if fields is not None and len(args) + len(kw) == len(fields) and all(k in fields for k in kw) and not any(isinstance(a.ast, ast.Starred) for a in args):
+            if fields is not None and len(args) <= len(fields) and all(k in fields[len(args):] for k in kw) and not any(isinstance(a.ast, ast.Starred) for a in args):
+                dflt = {k_: v_ for k_, v_ in fi.module.record_defaults(f.id).items() if isinstance(v_, ast.Constant)}
+                if not all(n_ in kw or n_ in dflt for n_ in fields[len(args):]):
+                    fields = None
+            else:
+                fields = None
+            if fields is not None:
                 # construction of a record: its fields are the argument values themselves
-                elems = list(args) + [kw[n_] for n_ in fields[len(args):]]
+                elems = list(args) + [kw[n_] if n_ in kw else const_val(dflt[n_].value) for n_ in fields[len(args):]]
                 rec = Val(ast.Call(func=ast.Name(id=f.id, ctx=ast.Load()), args=[x.ast for x in elems], keywords=[]),
                           tags=frozenset().union(*[x.tags for x in elems]) if elems else frozenset(), elems=elems, parts=elems)
                 rec.fields = fields
@@ -1374,6 +1380,27 @@ def _holds_function(v):
     if v.closure is not None:
         return True
     return v.elems is not None and any(_holds_function(x) for x in v.elems)
+
+
+def _may_raise_lookup(st, handlers):
+    """a statement without calls that can still raise what a handler of its try catches: subscripts (KeyError / IndexError)
+    and attribute loads (AttributeError)"""
+    names = set()
+    for h in handlers:
+        if h.type is None:
+            names.add('BaseException')
+        else:
+            for t in (h.type.elts if isinstance(h.type, ast.Tuple) else [h.type]):
+                names.add(norm(t).split('.')[-1])
+    anyexc = bool(names & {'Exception', 'BaseException'})
+    if isinstance(st, _Deferred):
+        return False
+    for n in ast.walk(st):
+        if isinstance(n, ast.Subscript) and isinstance(n.ctx, (ast.Load, ast.Del)) and (anyexc or names & {'KeyError', 'IndexError', 'LookupError', 'TypeError'}):
+            return True
+        if isinstance(n, ast.Attribute) and isinstance(n.ctx, ast.Load) and (names & {'AttributeError'}):
+            return True
+    return False
 
 
 def _has_call(st):
